@@ -9,7 +9,7 @@ def sh(cmd, cwd=None):
     p = subprocess.run(cmd, shell=True, cwd=cwd, env=ENV, stdout=subprocess.PIPE, stderr=subprocess.STDOUT, text=True)
     return p.returncode, p.stdout
 scratch = {}
-for f in sorted(glob.glob({"1": "/tmp/seed_eval.*.jsonl", "2": "/tmp/seed2_eval.*.jsonl", "3": "/tmp/seed3_eval.*.jsonl", "4": "/tmp/seed4_eval.*.jsonl", "5": "/tmp/seed5_eval.*.jsonl"}[os.environ.get("SEED_ROUND", "1")])):
+for f in sorted(glob.glob({"1": "/tmp/seed_eval.*.jsonl", "2": "/tmp/seed2_eval.*.jsonl", "3": "/tmp/seed3_eval.*.jsonl", "4": "/tmp/seed4_eval.*.jsonl", "5": "/tmp/seed5_eval.*.jsonl", "6": "/tmp/seed6_eval.*.jsonl"}[os.environ.get("SEED_ROUND", "1")])):
     for l in open(f):
         l = l.strip()
         if l.startswith("{"):
@@ -21,8 +21,8 @@ for f in sorted(glob.glob({"1": "/tmp/seed_eval.*.jsonl", "2": "/tmp/seed2_eval.
             scratch[key] = r
 assert sh("git -C /repo status --porcelain")[1].strip() == "", "/repo not clean"
 ROUND = os.environ.get("SEED_ROUND", "1")
-MUT = {"1": "/tmp/mut-", "2": "/tmp/mut2-", "3": "/tmp/mut3-", "4": "/tmp/mut4-", "5": "/tmp/mut5-"}[ROUND]
-TAG = {"1": "", "2": "r2-", "3": "r3-", "4": "r4-", "5": "r5-"}[ROUND]
+MUT = {"1": "/tmp/mut-", "2": "/tmp/mut2-", "3": "/tmp/mut3-", "4": "/tmp/mut4-", "5": "/tmp/mut5-", "6": "/tmp/mut6-"}[ROUND]
+TAG = {"1": "", "2": "r2-", "3": "r3-", "4": "r4-", "5": "r5-", "6": "r6-"}[ROUND]
 if os.environ.get("SEED_RETARGET"):  # e.g. "C11:3=C14,C02:1=REJECT"
     pass
 # changes whose trigger lies outside the domain of the property they were written for
@@ -42,6 +42,7 @@ for pid in ids:
         out = f"/verif/seeded/{pid}-{TAG}{k}"; os.makedirs(out, exist_ok=True)
         shutil.copy(f"{d}/patch{k}.diff", f"{out}/patch.diff"); shutil.copy(f"{d}/demo{k}.rs", f"{out}/demo.rs")
         if os.path.exists(f"{d}/notes{k}.md"): shutil.copy(f"{d}/notes{k}.md", f"{out}/notes.md")
+        if os.path.exists(f"{d}/demo{k}.cmd"): shutil.copy(f"{d}/demo{k}.cmd", f"{out}/demo.cmd")
         rc, o = sh(f"git -C /repo apply {out}/patch.diff"); assert rc == 0, o
         t0 = time.time()
         try:
